@@ -542,6 +542,9 @@ def r9_rules(rep, F, get):
                     words.add(x.get("name"))
         words -= exp_vars
         if not words:
+            # the function keeps a single local (the exchange's 'expected' operand): a failed exchange refreshes it by itself
+            words = set(exp_vars)
+        if not words:
             raise AnalysisBroken("%s: local copy of the state word not identified" % fn.qname)
 
         def fresh_write(e, w):
@@ -561,6 +564,8 @@ def r9_rules(rep, F, get):
                 if not readers:
                     continue
                 fresh_blocks = set(b for b in comp if any(fresh_write(e, w) for e in fn.blocks[b].events))
+                if w in exp_vars:
+                    fresh_blocks |= set(b for b, i, e in cas if b in comp and strip(e["args"][0]).get("name") == w)
                 rest = set(comp) - fresh_blocks
                 stale = None
                 for r0 in sorted(set(readers)):
